@@ -205,6 +205,7 @@ func (t *tcpHandler) CloseIdles(n int64) bool {
 			allClosed = false
 			return true
 		}
+		verifServerYield(t.server.protocol, "CloseIdles.beforeClose", conn.conn)
 		conn.conn.Close()
 		return true
 	})
